@@ -39,6 +39,7 @@ package httpgen
 //@   at-call bindPathParams requires headers_first: count("validateHeaders") > old(count("validateHeaders")) && lastNil("validateHeaders")
 //@   at-call bindQueryParams requires after_path: lastNil("validateHeaders") && count("bindPathParams") > old(count("bindPathParams")) && lastNil("bindPathParams")
 //@   at-call bindDataBasedOnContentType requires headers_first: count("validateHeaders") > old(count("validateHeaders")) && lastNil("validateHeaders")
+//@   at-call bindDataBasedOnContentType requires url_survives_body: count("bindPathParams") == old(count("bindPathParams")) && count("bindQueryParams") == old(count("bindQueryParams"))
 //@   at-call bindDataBasedOnContentType requires body_verb_only: httpMethod == "POST" || httpMethod == "PUT" || httpMethod == "PATCH"
 //@   at-call bindDataBasedOnContentType requires url_bound_ok: (count("bindPathParams") > old(count("bindPathParams")) ==> lastNil("bindPathParams")) && (count("bindQueryParams") > old(count("bindQueryParams")) ==> lastNil("bindQueryParams"))
 //@   at-call ServeHTTP requires headers_ok: count("validateHeaders") > old(count("validateHeaders")) && lastNil("validateHeaders")
